@@ -1,2 +1,154 @@
-/-! Driver for C04 (stub: not built yet). -/
-def main : IO Unit := pure ()
+import Drivers.Proto
+import PymocaVerif.Model.ClassAsm
+/-! Driver for C04: decodes a class description, runs the listener machine on its event stream and
+    (separately) the structural specification, and prints the resulting trees. -/
+open Lean Drivers PymocaVerif.ClassAsm
+
+def strs (j : Json) : Except String (List String) := do
+  (← j.getArr?).toList.mapM (·.getStr?)
+
+def optStrs (j : Json) (k : String) : Except String (Option (List String)) :=
+  match j.getObjVal? k with
+  | .ok Json.null => pure none
+  | .ok v => do pure (some (← strs v))
+  | .error _ => pure none
+
+def getStrs (j : Json) (k : String) : Except String (List String) := do strs (← j.getObjVal? k)
+
+def parseVis (s : String) : Except String Vis :=
+  match s with
+  | "public" => pure .pub
+  | "protected" => pure .prot
+  | "private" => pure .priv
+  | o => throw s!"bad visibility {o}"
+
+def parseModItem (j : Json) : Except String ModItem :=
+  match j.getObjVal? "cm" with
+  | .ok v => do pure (.cm (← strs v))
+  | .error _ => do pure (.val (← getStr j "val"))
+
+def parseDecl (j : Json) : Except String Decl := do
+  pure (Decl.mk (← getStr j "name") (← optStrs j "dims") (← (← getArr j "mod").toList.mapM parseModItem)
+         (← getNat j "modTicks") (← getStr j "comment") (← getNat j "annTicks"))
+
+def parseExtEv (j : Json) : Except String ExtEv :=
+  match j with
+  | .str "m" => pure .m
+  | _ => do
+    let d ← j.getObjVal? "d"
+    pure (.d (← getStrs d "prefixes") (← getStrs d "type") (← getStr d "name"))
+
+def parseImp (j : Json) : Except String ImpSrc := do
+  let form ← getStr j "form"
+  let path ← getStrs j "path"
+  match form with
+  | "qual" => pure (.qual path)
+  | "short" => pure (.short (← getStr j "short") path)
+  | "star" => pure (.star path)
+  | "list" => pure (.list path (← getStrs j "names"))
+  | o => throw s!"bad import form {o}"
+
+mutual
+partial def parseClass (j : Json) : Except String ClassSrc := do
+  let kind ← getStr j "kind"
+  let isPartial ← getBool j "partial"
+  let enc ← getBool j "encapsulated"
+  let name ← getStr j "name"
+  let comment ← getStr j "comment"
+  let ann ← optStrs j "annotation"
+  let annTicks ← getNat j "annTicks"
+  let hdr : ClassHdr := ClassHdr.mk kind isPartial enc name comment ann annTicks
+  let first ← parseElems (← getArr j "first").toList
+  let rest ← parseSections (← getArr j "sections").toList
+  pure (.mk hdr first rest)
+partial def parseElems : List Json → Except String Elems
+  | [] => pure .nil
+  | j :: t => do
+    let rest ← parseElems t
+    match ← getStr j "t" with
+    | "comp" =>
+      let c : Clause := { prefixes := ← getStrs j "prefixes", type := ← getStrs j "type", cdims := ← optStrs j "cdims",
+                          decls := ← (← getArr j "decls").toList.mapM parseDecl }
+      pure (.comp c rest)
+    | "ext" =>
+      let e : ExtSrc := { path := ← getStrs j "path", args := ← getStrs j "args",
+                          evs := ← (← getArr j "evs").toList.mapM parseExtEv }
+      pure (.ext e rest)
+    | "imp" => pure (.imp (← parseImp j) rest)
+    | "cls" => pure (.cls (← parseClass (← getObj j "cls")) rest)
+    | "short" =>
+      let s : ShortSrc := ShortSrc.mk (← getStr j "kind") (← getStr j "name") (← getStrs j "path")
+                            (← getStrs j "args") (← getNat j "ticks") (← getStr j "comment")
+      pure (.short s rest)
+    | o => throw s!"bad element {o}"
+partial def parseSections : List Json → Except String Sections
+  | [] => pure .nil
+  | j :: t => do
+    let rest ← parseSections t
+    match ← getStr j "t" with
+    | "elems" => pure (.elems (← parseVis (← getStr j "vis")) (← parseElems (← getArr j "elems").toList) rest)
+    | "eqs" => pure (.eqs (← getBool j "initial") (← getStrs j "items") rest)
+    | "algs" => pure (.algs (← getBool j "initial") (← getStrs j "items") rest)
+    | o => throw s!"bad section {o}"
+end
+
+def parseFile (j : Json) : Except String (List (Bool × ClassSrc)) := do
+  (← getArr j "classes").toList.mapM fun t => do
+    pure (← getBool t "final", ← parseClass (← getObj t "cls"))
+
+def visStr : Vis → String
+  | .priv => "private" | .prot => "protected" | .pub => "public"
+
+def jOptStrs : Option (List String) → Json
+  | none => Json.null
+  | some l => jstrs l
+
+def symJson (y : Sym) : Json :=
+  Json.mkObj [("name", y.name), ("type", jstrs y.type), ("prefixes", jstrs y.prefixes),
+    ("dims", Json.arr (y.dims.map jstrs).toArray), ("comment", y.comment), ("vis", visStr y.vis),
+    ("order", Json.num (y.order : Int)), ("cmod", jOptStrs y.cmod),
+    ("ids", Json.arr #[Json.num (y.typeId : Int), Json.num (y.dimsId : Int), Json.num (y.prefId : Int)])]
+
+def pathsJson (ps : List (List String)) : Json := Json.arr (ps.map jstrs).toArray
+
+def importJson (p : String × ImportVal) : Json :=
+  Json.arr #[Json.str p.1,
+    match p.2 with
+    | .ref path => Json.mkObj [("k", "ref"), ("path", jstrs path)]
+    | .short paths n => Json.mkObj [("k", "short"), ("paths", pathsJson paths), ("name", n)]
+    | .star paths => Json.mkObj [("k", "star"), ("paths", pathsJson paths)]]
+
+partial def classJson : ClassAst → Json
+  | .mk i cs =>
+    Json.mkObj [("name", match i.name with | some n => Json.str n | none => Json.null),
+      ("kind", i.kind), ("partial", i.partial_), ("encapsulated", i.encapsulated), ("final", i.final),
+      ("comment", i.comment), ("symbols", Json.arr (i.symbols.map symJson).toArray),
+      ("extends", Json.arr (i.extends_.map fun e =>
+          Json.mkObj [("path", jstrs e.path), ("args", jstrs e.args), ("vis", visStr e.vis)]).toArray),
+      ("imports", Json.arr (i.imports.map importJson).toArray),
+      ("equations", jstrs i.equations), ("initial_equations", jstrs i.initialEquations),
+      ("statements", jstrs i.statements), ("initial_statements", jstrs i.initialStatements),
+      ("annotation", jOptStrs i.annotation),
+      ("classes", Json.arr (cs.map classJson).toArray)]
+
+def resultJson : Except Err (List ClassAst) → Json
+  | .ok cs => Json.mkObj [("outcome", "ok"), ("classes", Json.arr (cs.map classJson).toArray)]
+  | .error (.alreadyDefined n) => Json.mkObj [("outcome", "error"), ("err", "alreadyDefined"), ("name", n)]
+  | .error (.alreadyImported n) => Json.mkObj [("outcome", "error"), ("err", "alreadyImported"), ("name", n)]
+  | .error .noneSymbol => Json.mkObj [("outcome", "error"), ("err", "noneSymbol"), ("name", "")]
+  | .error (.model m) => Json.mkObj [("outcome", "error"), ("err", "model"), ("name", m)]
+
+def handle (req : Json) : Except String Json := do
+  let op ← getStr req "op"
+  match op with
+  | "asm.run" => do
+    let file ← parseFile (← getObj req "file")
+    let r := resultJson (runListener file)
+    let sp := resultJson (expected file)
+    let same := r.compress == sp.compress
+    let base : List (String × Json) := [("ok", Json.bool true), ("result", r), ("refines", Json.bool same),
+      ("events", Json.num ((fileEvents file).length : Int))]
+    pure (Json.mkObj (base ++ (if same then [] else [("spec", sp)])))
+  | o => throw s!"unknown-op {o}"
+
+def main : IO Unit := serve handle
